@@ -99,16 +99,18 @@ pub struct Case {
     pub fail_at: Option<usize>,
     pub failure: &'static str,
     pub stdout_file: bool,
+    /// stdout is a full pipe in non-blocking mode: nothing can be written (EAGAIN)
+    pub stdout_full_pipe: bool,
     pub seed: u64,
 }
 
 impl Case {
     fn json(&self) -> Value {
-        json!({"to": self.to.name(), "sizes": self.sizes, "fail_at": self.fail_at, "failure": self.failure, "stdout_file": self.stdout_file, "seed": self.seed})
+        json!({"to": self.to.name(), "sizes": self.sizes, "fail_at": self.fail_at, "failure": self.failure, "stdout_file": self.stdout_file, "stdout_full_pipe": self.stdout_full_pipe, "seed": self.seed})
     }
     fn parse(v: &Value) -> Option<Case> {
         let failure = FAILURES.iter().copied().chain(["none"]).find(|f| Some(*f) == v["failure"].as_str())?;
-        Some(Case { to: Fmt::parse(v["to"].as_str()?)?, sizes: v["sizes"].as_array()?.iter().filter_map(|x| x.as_u64().map(|x| x as usize)).collect(), fail_at: v["fail_at"].as_u64().map(|x| x as usize), failure, stdout_file: v["stdout_file"].as_bool()?, seed: v["seed"].as_u64()? })
+        Some(Case { to: Fmt::parse(v["to"].as_str()?)?, sizes: v["sizes"].as_array()?.iter().filter_map(|x| x.as_u64().map(|x| x as usize)).collect(), fail_at: v["fail_at"].as_u64().map(|x| x as usize), failure, stdout_file: v["stdout_file"].as_bool()?, stdout_full_pipe: v["stdout_full_pipe"].as_bool().unwrap_or(false), seed: v["seed"].as_u64()? })
     }
 }
 
@@ -252,7 +254,7 @@ pub fn judge(case: &Case, acc: &mut Acc) {
         }
     }
     let paths: Vec<String> = argv[2..].to_vec();
-    let kind = if case.stdout_file { StdoutKind::File } else { StdoutKind::Pipe };
+    let kind = if case.stdout_full_pipe { StdoutKind::FullNonBlockingPipe } else if case.stdout_file { StdoutKind::File } else { StdoutKind::Pipe };
     let exp = climodel::emulate(None, case.to, &paths, &files, &stdin, &kind);
     // FIFOs are fed only as far as the model says xt will get (a FIFO nobody opens would block its feeder)
     let reached = exp.inputs.len() + 1;
@@ -277,6 +279,28 @@ pub fn judge(case: &Case, acc: &mut Acc) {
     }
     if matches!(out.status, procmon::Status::Timeout | procmon::Status::SpawnError(_)) {
         acc.inconclusive += 1;
+        return;
+    }
+    if case.stdout_full_pipe {
+        // nothing can be written: a run that has output to deliver must end - at the first input whose output
+        // cannot be delivered - with status 1 and a message; it may not end with status 0, and it may not go on
+        // and blame a LATER input while an earlier input's output was dropped
+        acc.count("runs_with_stdout_a_full_nonblocking_pipe");
+        let has_output = !exp.stdout_ceiling.is_empty();
+        let err = String::from_utf8_lossy(&out.stderr).into_owned();
+        let verdict: Result<(), String> = if !has_output {
+            climodel::judge_run(&out, &exp)
+        } else if out.status != procmon::Status::Exit(1) || !err.starts_with("xt error") {
+            Err(format!("wait status {} with output that cannot be written (expected exit 1 and a message beginning 'xt error')", out.status.show()))
+        } else if !exp.stdout_floor.is_empty() && exp.names.as_ref().map(|n| err.lines().next().unwrap_or("").contains(n.as_str())).unwrap_or(false) {
+            Err(format!("the run went on to a later input and blames it ({}), although the {} bytes of earlier inputs could not be written", exp.names.clone().unwrap_or_default(), exp.stdout_floor.len()))
+        } else {
+            acc.count("full_pipe_failure_reported_at_the_input_whose_output_was_lost");
+            Ok(())
+        };
+        if let Err(e) = verdict {
+            acc.violation(Violation { sig: format!("{} full non-blocking pipe: {}", case.failure, ev::truncate(&crate::c02_mask(&e), 80)), case: case.json(), observed: format!("{e}; argv {:?}; status {}, stderr [{}]", argv, out.status.show(), preview(&out.stderr, 160)), expected: "exit 1 with a message about the write failure (or about the input being written when it happened)".into() });
+        }
         return;
     }
     if let Err(e) = climodel::judge_run(&out, &exp) {
@@ -307,14 +331,14 @@ pub fn run(ctx: &Ctx) -> i32 {
         // failing position: every position in turn, or none
         let fail_at = if i % 7 == 6 { None } else if many { Some(n_in - 1 - rng.below(3)) } else { Some((i / 4) % n_in) };
         let failure = FAILURES[(i / 28) % FAILURES.len()];
-        let case = Case { to, sizes, fail_at, failure: if fail_at.is_some() { failure } else { "none" }, stdout_file: (i / 2) % 2 == 0, seed: rng.next() };
+        let case = Case { to, sizes, fail_at, failure: if fail_at.is_some() { failure } else { "none" }, stdout_file: (i / 2) % 2 == 0, stdout_full_pipe: i % 9 == 4 && !many, seed: rng.next() };
         acc.distinct(&format!("{:?}", case));
         acc.sample_every(149, || case.json());
         judge(&case, acc);
     });
-    let rule = format!("{} invocations: 1-6 inputs (one invocation in forty: 100-400 small inputs with the failing one near the end) with sizes from 5 B to 4 MiB (mostly below the 8 KiB stdout buffer, some straddling it, some far above), the failing input at every position in turn (or none), failure kinds {:?}, all four targets, stdout a pipe or a file, some inputs through standard input, some zero-length or blank files, one invocation in five with an input of exactly 256 / 512 / 1000 / 1023 / 1024 / 1025 / 2048 / 3072 / 4096 / 8192 / 10000 / 16384 one-line documents, one name in six not valid UTF-8; every second small input is a generated document in a random source format and spelling (named by its extension) whose last value is an empty string, an empty collection or another value that serializers finish with an unusual final write, delivered as a regular file, on standard input (format detected) or through a FIFO (named with or without its extension); expectation computed with the library; distinct non-trivial = distinct invocations", n, FAILURES);
+    let rule = format!("{} invocations: 1-6 inputs (one invocation in forty: 100-400 small inputs with the failing one near the end) with sizes from 5 B to 4 MiB (mostly below the 8 KiB stdout buffer, some straddling it, some far above), the failing input at every position in turn (or none), failure kinds {:?}, all four targets, stdout a pipe or a file (one run in nine: a full pipe in non-blocking mode, where the run must stop with status 1 at the first input whose output cannot be delivered instead of going on and blaming a later one), some inputs through standard input, some zero-length or blank files, one invocation in five with an input of exactly 256 / 512 / 1000 / 1023 / 1024 / 1025 / 2048 / 3072 / 4096 / 8192 / 10000 / 16384 one-line documents, one name in six not valid UTF-8; every second small input is a generated document in a random source format and spelling (named by its extension) whose last value is an empty string, an empty collection or another value that serializers finish with an unusual final write, delivered as a regular file, on standard input (format detected) or through a FIFO (named with or without its extension); expectation computed with the library; distinct non-trivial = distinct invocations", n, FAILURES);
     ev::finish(
-        Finish { ctx, level: "fault_enumeration", rule, assumptions: vec!["how much of the FAILING input's own partial output reaches stdout is left open (anything between nothing and all of it)".into()], extra: serde_json::Map::new(), exhaustive: false, min_distinct: 300, must_reach: vec![("failures_with_earlier_output_below_buffer_size".into(), 100), ("expected_exit_0".into(), 50), ("failing_position_0".into(), 20), ("failing_position_3".into(), 20), ("generated_input_msgpack".into(), 30), ("generated_input_yaml".into(), 30), ("generated_input_json".into(), 30), ("generated_input_on_stdin".into(), 20), ("zero_length_or_blank_input".into(), 50), ("input_names_not_utf8".into(), 100), ("generated_input_through_fifo".into(), 30), ("inputs_with_an_exact_round_number_of_documents".into(), 100), ("invocations_with_hundreds_of_inputs".into(), 20)] },
+        Finish { ctx, level: "fault_enumeration", rule, assumptions: vec!["how much of the FAILING input's own partial output reaches stdout is left open (anything between nothing and all of it)".into()], extra: serde_json::Map::new(), exhaustive: false, min_distinct: 300, must_reach: vec![("failures_with_earlier_output_below_buffer_size".into(), 100), ("expected_exit_0".into(), 50), ("failing_position_0".into(), 20), ("failing_position_3".into(), 20), ("generated_input_msgpack".into(), 30), ("generated_input_yaml".into(), 30), ("generated_input_json".into(), 30), ("generated_input_on_stdin".into(), 20), ("zero_length_or_blank_input".into(), 50), ("input_names_not_utf8".into(), 100), ("generated_input_through_fifo".into(), 30), ("inputs_with_an_exact_round_number_of_documents".into(), 100), ("invocations_with_hundreds_of_inputs".into(), 20), ("full_pipe_failure_reported_at_the_input_whose_output_was_lost".into(), 40)] },
         acc,
     )
 }
